@@ -1336,9 +1336,13 @@ class Engine:
                 st.ghost[f"L{ordn}_left_early"] = z3.IntVal(1)      # left by `return` from inside the body
                 for k in spec.get("ghost_pre", {}):
                     st.env[k] = genv[k]      # the iteration's start snapshots stay readable in the postcondition
+                for k in spec.get("ghost_init", {}):
+                    st.env[k] = genv[k]      # user ghosts: their value over the completed iterations
                 raise
             except _Break:
                 st.ghost[f"L{ordn}_left_early"] = z3.IntVal(1)      # ghost: the loop was left by `break` before exhausting its iterable
+                for k in spec.get("ghost_init", {}):
+                    st.env[k] = genv[k]      # user ghosts: their value over the completed iterations (the step of the iteration left is not applied)
                 return
             # lemmas: small facts about this iteration, each proved on its own and then available to the obligations that follow
             lem_ = []
